@@ -5,8 +5,7 @@
    The key of a site contains the guards that dominate it syntactically, so a site whose
    guard was removed or changed, and every new partial operation, has NO entry and breaks
    [C06_all_sites_discharged] (Props/C06.v).  The entries were produced with
-   translator/partialops/mktable.py from the repaired tree (and the tree with the other
-   properties' fixes applied: entries for both variants of a changed function are kept);
+   translator/partialops/mktable.py from /repo with all properties' repairs committed (HEAD 25cd468);
    only ByLemma entries carry a Coq proof, the other classifications are by reading. *)
 From Coq Require Import ZArith String List Bool.
 From Ecal Require Import Common.Outcome Model.Prims Spec.NoCrashSpec Proofs.PrimsProofs gen.PartialOps.
@@ -60,7 +59,6 @@ Definition discharge_table : list (string * discharge) := [
   ("engine/rule.go|(*RuleIndexKind).isTriggeringAtLevel|index|event.kind[level]|!(len(event.kind) <= level)", Guarded "the length test in the key dominates the access");
   ("engine/rule.go|(*RuleIndexKind).matchAtLevel|index|event.kind[level]|!(len(event.kind) <= level)", Guarded "the length test in the key dominates the access");
   ("engine/rule.go|(*RuleIndexState).addRuleAtLevel|assert-call|errorutil.AssertTrue(len(kindMatchLevel) == 0)|", OtherProperty "C01: a state index is only created for the last kind level");
-  ("engine/rule.go|(*RuleIndexState).matchAtLevel|index|ri.rules[i]|", OtherProperty "C01: collection loop over the match bits (capacity finding F03)");
   ("engine/rule.go|(*RuleMatcherKey).String|mapkey|rm.bitsValue[k]|", Invariant "k ranges over the keys of the same map");
   ("engine/rule.go|(*RuleMatcherKey).addRule|mapkey|rm.bitsValue[value]|!(value == nil) && !(regex, ok := value.(*regexp.Regexp); ok) && isHashable(value)", OtherProperty "C01: F04 repaired, the value is hashed only when it is hashable");
   ("engine/rule.go|(*RuleMatcherKey).match|mapkey|rm.bitsValue[value]|value != nil && isHashable(value)", OtherProperty "C01: F04 repaired, the value is hashed only when it is hashable");
@@ -154,7 +152,7 @@ Definition discharge_table : list (string * discharge) := [
   ("interpreter/rt_general.go|(*operatorRuntime).strOp|assert-call|errorutil.AssertTrue(len(rt.node.Children) == 2)|", AstShape "operator nodes have exactly the asserted number of operands (parser)");
   ("interpreter/rt_general.go|(*operatorRuntime).strOp|index|rt.node.Children[0]|", AstShape "number of children fixed by the parser for this node kind (C07 well-formedness, Validate); fuzzed by stream 2");
   ("interpreter/rt_general.go|(*operatorRuntime).strOp|index|rt.node.Children[1]|", AstShape "number of children fixed by the parser for this node kind (C07 well-formedness, Validate); fuzzed by stream 2");
-  ("interpreter/rt_identifier.go|(*identifierRuntime).executeFunction|assert|rt.erp.NewRuntimeError(util.ErrRuntimeError, err.Error(), node).(*util.RuntimeError)|", Invariant "ECALRuntimeProvider.NewRuntimeError always returns a *util.RuntimeError");
+  ("interpreter/rt_identifier.go|(*identifierRuntime).executeFunction|assert|rt.erp.NewRuntimeError(util.ErrRuntimeError, errMsg, node).(*util.RuntimeError)|", Invariant "ECALRuntimeProvider.NewRuntimeError always returns a *util.RuntimeError");
   ("interpreter/rt_identifier.go|(*identifierRuntime).executeFunction|index|args[i]|range args", Guarded "i ranges over args");
   ("interpreter/rt_identifier.go|(*identifierRuntime).resolveValue/func|slice|rnode.Children[i+1:]|range rnode.Children", Guarded "the length test / loop bound in the key dominates the access");
   ("interpreter/rt_identifier.go|buildAccessString|index|c.Children[0]|", AstShape "number of children fixed by the parser for this node kind (C07 well-formedness, Validate); fuzzed by stream 2");
@@ -210,17 +208,12 @@ Definition discharge_table : list (string * discharge) := [
   ("interpreter/rt_statements.go|(*mutexRuntime).Eval|index|rt.node.Children[0]|", AstShape "number of children fixed by the parser for this node kind (C07 well-formedness, Validate); fuzzed by stream 2");
   ("interpreter/rt_statements.go|(*mutexRuntime).Eval|index|rt.node.Children[1]|", AstShape "number of children fixed by the parser for this node kind (C07 well-formedness, Validate); fuzzed by stream 2");
   ("interpreter/rt_statements.go|(*tryRuntime).Eval|index|child.Children[0]|", AstShape "number of children fixed by the parser for this node kind (C07 well-formedness, Validate); fuzzed by stream 2");
-  ("interpreter/rt_statements.go|(*tryRuntime).Eval|index|finally.Children[0]|", AstShape "number of children fixed by the parser for this node kind (C07 well-formedness, Validate); fuzzed by stream 2");
   ("interpreter/rt_statements.go|(*tryRuntime).Eval|index|rt.node.Children[0]|", AstShape "number of children fixed by the parser for this node kind (C07 well-formedness, Validate); fuzzed by stream 2");
   ("interpreter/rt_statements.go|(*tryRuntime).Eval|index|rt.node.Children[i]|for i < len(rt.node.Children)", Guarded "the length test / loop bound in the key dominates the access");
   ("interpreter/rt_statements.go|(*tryRuntime).Eval|index|rt.node.Children[len(rt.node.Children)-1]|", AstShape "number of children fixed by the parser for this node kind (C07 well-formedness, Validate); fuzzed by stream 2");
   ("interpreter/rt_statements.go|(*tryRuntime).Eval/func|index|finally.Children[0]|", AstShape "number of children fixed by the parser for this node kind (C07 well-formedness, Validate); fuzzed by stream 2");
   ("interpreter/rt_statements.go|(*tryRuntime).evalExcept|assert-call|errorutil.AssertOk(evalErr)|", Invariant "a string constant evaluates without error (C14: interpolation errors are inlined)");
   ("interpreter/rt_statements.go|(*tryRuntime).evalExcept|index|child.Children[0]|", AstShape "number of children fixed by the parser for this node kind (C07 well-formedness, Validate); fuzzed by stream 2");
-  ("interpreter/rt_statements.go|(*tryRuntime).evalExcept|index|except.Children[0]|!(len(except.Children) == 1) && len(except.Children) == 2", Guarded "the length test / loop bound in the key dominates the access");
-  ("interpreter/rt_statements.go|(*tryRuntime).evalExcept|index|except.Children[0]|len(except.Children) == 1", Guarded "the length test / loop bound in the key dominates the access");
-  ("interpreter/rt_statements.go|(*tryRuntime).evalExcept|index|except.Children[1]|!(len(except.Children) == 1) && len(except.Children) == 2", Guarded "the length test / loop bound in the key dominates the access");
-  ("interpreter/rt_statements.go|(*tryRuntime).evalExcept|index|except.Children[i]|!(len(except.Children) == 1) && !(len(except.Children) == 2) && for i < len(except.Children)", Guarded "the length test / loop bound in the key dominates the access");
   ("interpreter/rt_value.go|(*mapValueRuntime).Eval|index|kvp.Children[0]|", AstShape "number of children fixed by the parser for this node kind (C07 well-formedness, Validate); fuzzed by stream 2");
   ("interpreter/rt_value.go|(*mapValueRuntime).Eval|index|kvp.Children[1]|", AstShape "number of children fixed by the parser for this node kind (C07 well-formedness, Validate); fuzzed by stream 2");
   ("interpreter/rt_value.go|(*mapValueRuntime).Eval|mapkey|m[key]|key, err = kvp.Children[0].Runtime.Eval(vs, is, tid); err == nil && !(t := reflect.TypeOf(key); t != nil && !t.Comparable())", ByLemma _ L_maplit);
@@ -236,7 +229,8 @@ Definition discharge_table : list (string * discharge) := [
   ("scope/varsscope.go|(*varsScope).containerAccess|index|fields[0]|", Invariant "strings.Split returns at least one element; fields is a non-empty suffix of cFields (recursion only with len(fields) > 1 resp. > 2)");
   ("scope/varsscope.go|(*varsScope).containerAccess|index|fields[0]|!(index, err = strconv.Atoi(fmt.Sprint(fields[0])); err == nil)", Invariant "strings.Split returns at least one element; fields is a non-empty suffix of cFields (recursion only with len(fields) > 1 resp. > 2)");
   ("scope/varsscope.go|(*varsScope).containerAccess|index|listContainer[index]|listContainer, ok := container.([]interface{}); ok && index, err = strconv.Atoi(fmt.Sprint(fields[0])); err == nil && index >= 0 && index < len(listContainer)", ByLemma _ L_assign);
-  ("scope/varsscope.go|(*varsScope).containerAccess|slice|cFields[:len(cFields)-len(fields)+1]|container, ok = mapContainer[fields[0]]; !ok", Invariant "strings.Split returns at least one element; fields is a non-empty suffix of cFields (recursion only with len(fields) > 1 resp. > 2)");
+  ("scope/varsscope.go|(*varsScope).containerAccess|mapkey|mapContainer[mapFieldKey(mapContainer, fields[0])]|mapContainer, ok := container.(map[interface{}]interface{}); ok", Invariant "mapFieldKey returns float64(index) or the string field itself: both hashable");
+  ("scope/varsscope.go|(*varsScope).containerAccess|slice|cFields[:len(cFields)-len(fields)+1]|container, ok = mapContainer[mapFieldKey(mapContainer, fields[0])]; !ok", Invariant "strings.Split returns at least one element; fields is a non-empty suffix of cFields (recursion only with len(fields) > 1 resp. > 2)");
   ("scope/varsscope.go|(*varsScope).containerAccess|slice|cFields[:len(cFields)-len(fields)]|", Invariant "strings.Split returns at least one element; fields is a non-empty suffix of cFields (recursion only with len(fields) > 1 resp. > 2)");
   ("scope/varsscope.go|(*varsScope).containerAccess|slice|cFields[:len(cFields)-len(fields)]|!(index, err = strconv.Atoi(fmt.Sprint(fields[0])); err == nil)", Invariant "strings.Split returns at least one element; fields is a non-empty suffix of cFields (recursion only with len(fields) > 1 resp. > 2)");
   ("scope/varsscope.go|(*varsScope).containerAccess|slice|cFields[:len(cFields)-len(fields)]|index, err = strconv.Atoi(fmt.Sprint(fields[0])); err == nil", Invariant "strings.Split returns at least one element; fields is a non-empty suffix of cFields (recursion only with len(fields) > 1 resp. > 2)");
@@ -247,6 +241,7 @@ Definition discharge_table : list (string * discharge) := [
   ("scope/varsscope.go|(*varsScope).getValue/func|index|fields[0]|", Invariant "strings.Split returns at least one element; fields is a non-empty suffix of cFields (recursion only with len(fields) > 1 resp. > 2)");
   ("scope/varsscope.go|(*varsScope).getValue/func|index|fields[0]|!(index, err = strconv.Atoi(fmt.Sprint(fields[0])); err == nil)", Invariant "strings.Split returns at least one element; fields is a non-empty suffix of cFields (recursion only with len(fields) > 1 resp. > 2)");
   ("scope/varsscope.go|(*varsScope).getValue/func|index|listContainer[index]|listContainer, ok := container.([]interface{}); ok && index, err = strconv.Atoi(fmt.Sprint(fields[0])); err == nil && index >= 0 && index < len(listContainer)", ByLemma _ L_get);
+  ("scope/varsscope.go|(*varsScope).getValue/func|mapkey|mapContainer[mapFieldKey(mapContainer, fields[0])]|mapContainer, ok := container.(map[interface{}]interface{}); ok", Invariant "mapFieldKey returns float64(index) or the string field itself: both hashable");
   ("scope/varsscope.go|(*varsScope).getValue/func|slice|cFields[:len(cFields)-len(fields)]|cFields := strings.Split(varName, "".""); len(cFields) > 1", Invariant "strings.Split returns at least one element; fields is a non-empty suffix of cFields (recursion only with len(fields) > 1 resp. > 2)");
   ("scope/varsscope.go|(*varsScope).getValue/func|slice|cFields[:len(cFields)-len(fields)]|cFields := strings.Split(varName, "".""); len(cFields) > 1 && !(index, err = strconv.Atoi(fmt.Sprint(fields[0])); err == nil)", Invariant "strings.Split returns at least one element; fields is a non-empty suffix of cFields (recursion only with len(fields) > 1 resp. > 2)");
   ("scope/varsscope.go|(*varsScope).getValue/func|slice|cFields[:len(cFields)-len(fields)]|cFields := strings.Split(varName, "".""); len(cFields) > 1 && index, err = strconv.Atoi(fmt.Sprint(fields[0])); err == nil", Invariant "strings.Split returns at least one element; fields is a non-empty suffix of cFields (recursion only with len(fields) > 1 resp. > 2)");
@@ -256,9 +251,9 @@ Definition discharge_table : list (string * discharge) := [
   ("scope/varsscope.go|(*varsScope).setValue|index|cFields[0]|cFields := strings.Split(varName, "".""); len(cFields) > 1 && !(container, ok, _ := s.getValue(cFields[0]); ok)", Invariant "strings.Split returns at least one element; fields is a non-empty suffix of cFields (recursion only with len(fields) > 1 resp. > 2)");
   ("scope/varsscope.go|(*varsScope).setValue|index|cFields[len(cFields)-1]|cFields := strings.Split(varName, "".""); len(cFields) > 1 && container, ok, _ := s.getValue(cFields[0]); ok", Invariant "strings.Split returns at least one element; fields is a non-empty suffix of cFields (recursion only with len(fields) > 1 resp. > 2)");
   ("scope/varsscope.go|(*varsScope).setValue|index|listContainer[index]|listContainer, ok := container.([]interface{}); ok && index, err = strconv.Atoi(fieldIndex); err == nil && index >= 0 && index < len(listContainer)", ByLemma _ L_setraw);
+  ("scope/varsscope.go|(*varsScope).setValue|mapkey|mapContainer[mapFieldKey(mapContainer, fieldIndex)]|mapContainer, ok := container.(map[interface{}]interface{}); ok", Invariant "mapFieldKey returns float64(index) or the string field itself: both hashable");
   ("scope/varsscope.go|(*varsScope).setValue|slice|cFields[1:]|cFields := strings.Split(varName, "".""); len(cFields) > 1 && container, ok, _ := s.getValue(cFields[0]); ok && len(cFields) > 2", Invariant "strings.Split returns at least one element; fields is a non-empty suffix of cFields (recursion only with len(fields) > 1 resp. > 2)");
   ("scope/varsscope.go|(*varsScope).setValue|slice|cFields[:len(cFields)-1]|cFields := strings.Split(varName, "".""); len(cFields) > 1 && container, ok, _ := s.getValue(cFields[0]); ok", Invariant "strings.Split returns at least one element; fields is a non-empty suffix of cFields (recursion only with len(fields) > 1 resp. > 2)")
-
 ].
 
 Definition site_covered (s : psite) : bool :=
